@@ -22,7 +22,7 @@ import (
 
 // Op is one operation of a history.
 type Op struct {
-	// start | stop | wait | lose | await | dispatch | update
+	// start | stop | wait | lose | await | dispatch | update | pause
 	Op     string `json:"op"`
 	Script Script `json:"script"` // start only (zero value otherwise)
 }
@@ -38,7 +38,7 @@ type HistIn struct {
 // rec is one record of the observed history. Records are appended under one mutex; the
 // position in the slice is the global order.
 type rec struct {
-	T string `json:"t"` // call | ret | notify | onclose | cut | end
+	T string `json:"t"` // call | ret | notify | onclose | cut | cfg | end
 	// call/ret
 	Op     string `json:"op"`
 	I      int    `json:"i"`      // index of the operation in the input
@@ -84,18 +84,32 @@ func (l *evlog) snapshot() []rec {
 
 // thePlugin is the plugin behind the stub.
 type thePlugin struct {
-	mu      sync.Mutex
-	cfgFail bool
-	calls   int
-	syncs   int
+	mu       sync.Mutex
+	cfgFail  bool
+	cfgDelay time.Duration
+	calls    int
+	syncs    int
+	log      *evlog
 }
 
-func (p *thePlugin) Configure(_ context.Context, _, _, _ string) (stub.EventMask, error) {
+// opKey: the context handed to Start carries the index of that Start operation; ttrpc derives
+// every handler context of the connection from it, so the Configure callback knows which
+// Start call's connection it is being configured on.
+type opKey struct{}
+
+func (p *thePlugin) Configure(ctx context.Context, _, _, _ string) (stub.EventMask, error) {
 	p.mu.Lock()
-	defer p.mu.Unlock()
-	if p.cfgFail {
+	fail, delay := p.cfgFail, p.cfgDelay
+	p.mu.Unlock()
+	if delay > 0 {
+		time.Sleep(delay)
+	}
+	i, _ := ctx.Value(opKey{}).(int)
+	if fail {
+		p.log.add(rec{T: "cfg", I: i, Res: "err"})
 		return 0, errors.New("c16-configure-refused")
 	}
+	p.log.add(rec{T: "cfg", I: i, Res: "ok"})
 	return 0, nil
 }
 
@@ -192,7 +206,7 @@ func errKind(err error) string {
 // the socket (path must stay short).
 func runHistory(in HistIn, dir string, tag string, tm timing) (recs []rec) {
 	lg := newLog()
-	e := &executor{tm: tm, log: lg, pl: &thePlugin{}, notified: map[int]bool{}}
+	e := &executor{tm: tm, log: lg, pl: &thePlugin{log: lg}, notified: map[int]bool{}}
 	sock := filepath.Join(dir, tag+".sock")
 	rt, err := newRuntimeEnd(sock, lg)
 	if err != nil {
@@ -263,11 +277,12 @@ func runHistory(in HistIn, dir string, tag string, tm timing) (recs []rec) {
 			pmu.Unlock()
 			e.pl.mu.Lock()
 			e.pl.cfgFail = sc.Kind == "cfgErr"
+			e.pl.cfgDelay = time.Duration(sc.CfgDelayMs) * time.Millisecond
 			e.pl.mu.Unlock()
 			e.mu.Lock()
 			d0, c0 := e.dials, e.clients
 			e.mu.Unlock()
-			ctx, cancel := context.Background(), context.CancelFunc(func() {})
+			ctx, cancel := context.WithValue(context.Background(), opKey{}, i), context.CancelFunc(func() {})
 			if sc.CtxMs > 0 {
 				ctx, cancel = context.WithTimeout(ctx, time.Duration(sc.CtxMs)*time.Millisecond)
 			}
@@ -381,6 +396,11 @@ func runHistory(in HistIn, dir string, tag string, tm timing) (recs []rec) {
 				r.Res = "ok"
 			}
 			lg.add(r)
+		case "pause":
+			// lets pending close notifications run before the next call (Script.K microseconds)
+			lg.add(rec{T: "call", Op: "pause", I: i})
+			time.Sleep(time.Duration(op.Script.K) * time.Microsecond)
+			lg.add(rec{T: "ret", Op: "pause", I: i, Res: "returned"})
 		default:
 			lg.add(rec{T: "ret", Op: op.Op, I: i, Res: "unknown-op"})
 		}
